@@ -59,6 +59,21 @@ fn start_doc(k: usize) -> Buffer {
             b.set_size((8, 6));
             b.layers.push(l);
         }
+        6 => {
+            // the current layer is alpha locked (a write over an invisible cell is refused), three fonts, and a SAUCE record
+            // whose size fields differ from the size of the buffer (what a file with an empty record gives)
+            let mut l = Layer::new("alpha locked", (8, 4));
+            l.properties.has_alpha_channel = true;
+            fill(&mut l, 3);
+            l.properties.is_alpha_channel_locked = true;
+            b.layers.push(l);
+            b.set_font(1, synth_font("slot one", 16, 21));
+            b.set_font(2, synth_font("slot two", 16, 22));
+            b.font_mode = icy_engine::FontMode::Unlimited;
+            let mut s = SauceData::default();
+            s.title = SauceString::from("record without size");
+            b.set_sauce(Some(s), false);
+        }
         3 => {
             // the top layer was shrunk: it still holds content outside its size
             let mut l = Layer::new("shrunk", (6, 4));
@@ -91,13 +106,14 @@ fn start_doc(k: usize) -> Buffer {
     b
 }
 
-const DOCS: [&str; 6] = [
+const DOCS: [&str; 7] = [
     "1 layer 8x4",
     "base + offset alpha layer",
     "base + hidden + locked layer",
     "base + shrunk layer with hidden content",
     "custom palette, 2 fonts, chars layer, sauce",
     "base + tall layer with lazily stored rows, caret on its last row",
+    "base + alpha locked current layer, 3 fonts, sauce record without size",
 ];
 
 // ------------------------------------------------------------------ operations
@@ -288,6 +304,7 @@ fn ops() -> Vec<Op> {
         op!("set_font(custom)", |s| s.set_font(synth_font("set", 16, 78))),
         op!("replace_font_usage(0,1)", |s| s.replace_font_usage(0, 1)),
         op!("change_font_slot(0,5)", |s| s.change_font_slot(0, 5)),
+        op!("change_font_slot(2,1)", |s| s.change_font_slot(2, 1)),
         op!("remove_font(1)", |s| s.remove_font(1)),
         op!("update_layer_properties(cur)", |s| {
             let c = s.get_current_layer()?;
@@ -388,6 +405,8 @@ fn snapshot(b: &Buffer) -> Snap {
             f.u8(s.use_letter_spacing as u8);
             f.u8(s.use_aspect_ratio as u8);
             f.str(s.font_opt.as_deref().unwrap_or("-"));
+            f.i32(s.buffer_size.width);
+            f.i32(s.buffer_size.height);
         }
     })));
     comps.push(("layer-count".to_string(), b.layers.len() as u64));
@@ -470,6 +489,7 @@ struct Editor {
     ops: Vec<Op>,
     depth: u32,
     per_doc: u64,
+    explicit: Vec<(usize, Vec<usize>)>,
 }
 
 fn apply(s: &mut EditState, op: &Op) -> Result<bool, vharness::PanicRec> {
@@ -481,6 +501,9 @@ fn new_state(doc: usize) -> EditState {
     if doc == 5 {
         let _ = s.set_current_layer(1);
         s.get_caret_mut().set_position((0, 5).into());
+    }
+    if doc == 6 {
+        let _ = s.set_current_layer(1);
     }
     s
 }
@@ -648,7 +671,12 @@ fn run_history(ops: &[Op], doc: usize, hist: &[usize], ctx: &mut Ctx) {
                     pos += 1;
                 }
                 if !matches!(r, Ok(Ok(()))) {
-                    ctx.violation("diff:undo:interleaved-walk-failed", json!({"case": hist_json(n), "walk": walk}));
+                    let opn = if c == 'u' { applied.get(pos.max(0) as usize) } else { applied.get((pos - 1).max(0) as usize) }.map(|i| ops[*i].name).unwrap_or("?");
+                    let how = match &r {
+                        Err(p) => p.signature(),
+                        _ => "returned-error".to_string(),
+                    };
+                    ctx.violation(format!("diff:undo:interleaved-walk-failed:{}:{opn}:{how}", if c == 'u' { "undo" } else { "redo" }), json!({"case": hist_json(n), "walk": walk}));
                     ok = false;
                     break;
                 }
@@ -688,8 +716,34 @@ fn run_history(ops: &[Op], doc: usize, hist: &[usize], ctx: &mut Ctx) {
     }
 }
 
+/// Histories one step longer than the depth of the search, built from three roles: an operation whose undo stores every row of the
+/// layer (the layer-snapshot records), a row / column operation that records per stored row, and an operation whose redo puts back
+/// whole layers cloned when it first ran. The physical rows a record sees at undo time are then not the rows it saw at redo time.
+fn explicit_histories(ops: &[Op]) -> Vec<(usize, Vec<usize>)> {
+    let id = |n: &str| ops.iter().position(|o| o.name == n).unwrap_or_else(|| panic!("no operation {n}"));
+    let mut v = Vec::new();
+    for doc in [0usize, 5, 6] {
+        for pre in [vec![], vec!["clear_layer(0)"], vec!["cur_layer=0", "clear_layer(0)"], vec!["clear_layer(top)"]] {
+            for snap in ["justify_left", "flip_x", "scroll_area_up", "erase_row"] {
+                for rec in ["delete_column", "delete_row", "insert_column", "insert_row"] {
+                    for swap in ["set_ice_mode(Ice)", "switch_to_palette", "replace_font_usage(0,1)"] {
+                        let mut h: Vec<usize> = pre.iter().map(|n| id(n)).collect();
+                        h.extend([id(snap), id(rec), id(swap)]);
+                        v.push((doc, h));
+                    }
+                }
+            }
+        }
+    }
+    v
+}
+
 impl Editor {
     fn decode(&self, idx: u64) -> (usize, Vec<usize>) {
+        let searched = self.per_doc * DOCS.len() as u64;
+        if idx >= searched {
+            return self.explicit[(idx - searched) as usize].clone();
+        }
         let doc = (idx / self.per_doc) as usize;
         let mut k = idx % self.per_doc;
         // histories of every length 1..=depth: lengths are laid out one after another
@@ -714,7 +768,7 @@ impl Editor {
 
 impl Engine for Editor {
     fn total(&self) -> u64 {
-        self.per_doc * DOCS.len() as u64
+        self.per_doc * DOCS.len() as u64 + self.explicit.len() as u64
     }
     fn run(&mut self, idx: u64, ctx: &mut Ctx) {
         let (doc, h) = self.decode(idx);
@@ -731,7 +785,7 @@ impl Engine for Editor {
     }
     fn meta(&self) -> Value {
         json!({"operations": self.ops.iter().map(|o| o.name).collect::<Vec<_>>(), "set_up_steps(not edits)": self.ops.iter().filter(|o| !o.edit).count(), "depth": self.depth, "documents": DOCS,
-               "histories_per_document": self.per_doc})
+               "histories_per_document": self.per_doc, "explicit_longer_histories": self.explicit.len()})
     }
 }
 
@@ -741,6 +795,7 @@ fn main() {
         let depth = if tier == "thorough" { 3 } else { 2 };
         let n = ops.len() as u64;
         let per_doc: u64 = (1..=depth).map(|d| n.pow(d)).sum();
-        Box::new(Editor { ops, depth, per_doc })
+        let explicit = explicit_histories(&ops);
+        Box::new(Editor { ops, depth, per_doc, explicit })
     });
 }
